@@ -31,9 +31,10 @@ FAULT_KINDS = {
     'os_remove': ['EIO', 'EACCES', 'crash_before', 'crash_after'],       # os.remove / os.unlink
     'fsync': ['EIO', 'crash'],                                           # os.fsync on a descriptor opened through os.open
     'os_chmod': ['EACCES', 'crash_before'],                              # os.chmod (shutil.copymode ...) on a world path
+    'truncate': ['EIO', 'crash_before', 'crash_after'],                  # os.truncate / os.ftruncate
 }
 INPUT_SIDE = {'scandir', 'open_r', 'read', 'open_w'}          # nothing of the target has been modified yet
-WRITE_PHASE = {'opened_w', 'write', 'close_w', 'os_rename', 'os_remove', 'fsync', 'os_chmod'}                # the real open-for-write has happened
+WRITE_PHASE = {'opened_w', 'write', 'close_w', 'os_rename', 'os_remove', 'fsync', 'os_chmod', 'truncate'}                # the real open-for-write has happened
 
 
 class WorldTooHeavy(BaseException):
@@ -578,7 +579,8 @@ class World(object):
         def wrap_mod(name, nargs):
             real = getattr(os, name)
             self._saved['os.' + name] = real
-            fault_cls = {'rename': 'os_rename', 'replace': 'os_rename', 'remove': 'os_remove', 'unlink': 'os_remove', 'chmod': 'os_chmod'}.get(name)
+            fault_cls = {'rename': 'os_rename', 'replace': 'os_rename', 'remove': 'os_remove', 'unlink': 'os_remove', 'chmod': 'os_chmod',
+                         'truncate': 'truncate'}.get(name)
 
             def wrapper(*a, **k):
                 if os.getpid() != w.pid:
@@ -678,6 +680,26 @@ class World(object):
             return real_os_fsync(fd)
 
         os.write, os.close, os.fsync = sim_os_write, sim_os_close, sim_os_fsync
+
+        real_ftruncate = os.ftruncate
+        self._saved['os.ftruncate'] = real_ftruncate
+
+        def sim_ftruncate(fd, length):
+            path = fdmap.get(fd) if os.getpid() == w.pid else None
+            if path is None:
+                return real_ftruncate(fd, length)
+            f = w.event('truncate', path)
+            w.modlog('os.ftruncate', path)
+            if f is not None:
+                if f['kind'] == 'crash_before':
+                    w.crash()
+                if f['kind'] == 'EIO':
+                    raise OSError(errno.EIO, os.strerror(errno.EIO))
+            r = real_ftruncate(fd, length)
+            if f is not None and f['kind'] == 'crash_after':
+                w.crash()
+            return r
+        os.ftruncate = sim_ftruncate
 
     def uninstall(self):
         import tempfile
